@@ -244,8 +244,30 @@ pub fn some_cmds(rng: &mut Rng, region: &str, max_len: usize) -> Vec<u8> {
 /// Class of a rejected frame for the histogram
 pub fn rejected_frame(rng: &mut Rng, h: &Hist) -> (Vec<u8>, Option<u32>, &'static str) {
     let last = h.last_down;
-    match rng.below(7) {
+    match rng.below(8) {
         0 => ({ let n = rng.below(40) as usize; rng.bytes(n) }, None, "rej-random"),
+        7 => {
+            // a frame that verifies at the next fresh counter but whose MHDR is not that of a
+            // LoRaWAN R1 data frame (another major version, or a non-data message type); the MIC
+            // covers the altered MHDR
+            let fcnt = last.map(|l| l.wrapping_add(1)).unwrap_or(0);
+            let mut d = DownDesc::new(h.devaddr, fcnt);
+            d.nwk = h.nwk;
+            d.app = h.app;
+            d.confirmed = rng.chance(1, 2);
+            if rng.chance(1, 2) {
+                d.fopts = some_cmds(rng, &h.region, 15);
+            } else {
+                d.fport = Some(9);
+                d.payload = vec![4, 5];
+            }
+            let mut b = d.build().unwrap();
+            b[0] = *rng.pick(&[0x61u8, 0x62, 0x63, 0xa1, 0xa3, 0xe0, 0xc0, 0x20, 0x00]);
+            let n = b.len() - 4;
+            let mic = crate::refcodec::data_mic(&h.nwk, &b[..n], 1, &b[1..5], fcnt);
+            b[n..].copy_from_slice(&mic);
+            (b, Some(fcnt), "rej-mhdr-valid-mic")
+        }
         1 => {
             // authentic frame with one bit flipped
             let fcnt = last.map(|l| l.wrapping_add(1)).unwrap_or(5);
@@ -299,6 +321,11 @@ pub fn rejected_frame(rng: &mut Rng, h: &Hist) -> (Vec<u8>, Option<u32>, &'stati
         }
         5 => {
             // a JoinAccept under a wrong key
+            if rng.chance(1, 2) {
+                // ... or a (replayed) JoinAccept under the device's own root key, while in a session
+                let root = h.root;
+                return (build_join_accept(&root, 0x01020304, rng.next() as u8, rng.next() as u8 & 0x0f, &CfDesc::None), None, "rej-joinaccept-in-session");
+            }
             (build_join_accept(&OTHER_KEY, 0x01020304, rng.next() as u8, rng.next() as u8 & 0x0f, &CfDesc::None), None, "rej-joinaccept-wrongkey")
         }
         _ => {
@@ -394,6 +421,15 @@ pub fn join_attempt(rng: &mut Rng, h: &mut Hist, accept_pct: u64) -> bool {
     let rxd = rng.next() as u8 & 0x0f;
     let cf = some_cflist(rng, &h.region.clone());
     let w = if rng.chance(1, 2) { "rx1" } else { "rx2" };
+    if rng.chance(1, 4) {
+        // a JoinAccept-shaped frame that verifies under the device's own root key but whose MHDR is
+        // not that of a LoRaWAN R1 JoinAccept (another major version / another message type): invalid
+        let mhdr = *rng.pick(&[0x21u8, 0x22, 0x23, 0x00, 0x40, 0x60, 0xe0, 0xc1]);
+        let root = h.root;
+        let cfr = if rng.chance(1, 2) { Some((0u8, [0x18, 0x4f, 0x84, 0xe8, 0x56, 0x84, 0xb8, 0x5e, 0x84, 0x88, 0x66, 0x84, 0x58, 0x6e, 0x84])) } else { None };
+        let bad = build_join_accept_mhdr(&root, mhdr, devaddr, dls, rxd, cfr);
+        h.rx_bytes(w, 0, &bad, None);
+    }
     if rng.below(100) < accept_pct {
         if rng.chance(1, 4) {
             // a wrong-key accept first: must change nothing (a foreign key, or the key of the
